@@ -175,7 +175,7 @@ fn port_of(marker: &str) -> u32 {
 // ---------------------------------------------------------------------------------------------
 // node + admin access through the actors
 
-async fn build_node(dir: &std::path::Path) -> Arc<AppShareData> {
+pub(crate) async fn build_node(dir: &std::path::Path) -> Arc<AppShareData> {
     std::env::set_var("RNACOS_DATA_DIR", dir.to_string_lossy().to_string());
     std::env::set_var("RNACOS_HTTP_CONSOLE_PORT", "0");
     std::env::set_var("RNACOS_ENABLE_METRICS", "false");
@@ -201,7 +201,7 @@ async fn build_node(dir: &std::path::Path) -> Arc<AppShareData> {
 }
 
 /// leader and able to commit + apply a write
-async fn wait_leader(app: &Arc<AppShareData>) -> bool {
+pub(crate) async fn wait_leader(app: &Arc<AppShareData>) -> bool {
     for _ in 0..400 {
         if app.raft.current_leader().await == Some(app.sys_config.raft_node_id) {
             let probe = ClientRequest::ConfigRemove { key: ConfigKey::new("verif-probe", GROUP, "").build_key() };
